@@ -23,8 +23,8 @@ PROPS = {
         "assumptions": [],
     },
     "C11": {
-        "streams": [{"name": "cast"}],
-        "rule": "cast stream focused on binary forms: every fixed-width source -> []byte, and byte slices of length 0-17 (all-zero, all-ones, random, little-endian images of boundary values) -> every fixed-width target and bool; distinct by (target, source)",
+        "streams": [{"name": "cast"}, {"name": "template"}],
+        "rule": "template stream's binary-column oracle (a binary column mapped to each of the 14 fixed-width type names, payloads of 0-17 bytes incl. every NaN / Inf / signalling-NaN / minus-zero pattern and ASCII look-alikes: accepted iff well sized, re-emitted byte for byte) ++ cast stream focused on binary forms: every fixed-width source -> []byte, and byte slices of length 0-17 (all-zero, all-ones, random, little-endian images of boundary values) -> every fixed-width target and bool; distinct by (target, source)",
         "trusted_base": TB_COMMON,
         "assumptions": ["int and uint are 64-bit (checked by the translator)"],
     },
